@@ -290,7 +290,7 @@ CHECKS["C07"] = dict(
           "makeFeasible()+run(), runOnce()xk and ConstrainedMajorizationLayout::run(); overlap avoidance and neighbour stress on/off. Every constraint is re-evaluated by an independent "
           "evaluator on the final rectangle centres; it is excused only if an UnsatisfiableConstraintInfo naming that compound constraint was delivered. "
           "non-trivial = some constraint is violated by the initial placement"),
-    workloads=[dict(harness="c07_cola", mode="constraints", quick=20000, thorough=250000, watchdog=60, san_thorough=3000)],
+    workloads=[dict(harness="c07_cola", mode="constraints", quick=20000, thorough=250000, watchdog=30, san_thorough=3000)],
     min_nontrivial=dict(quick=1500, thorough=30000),
     max_inconclusive=0.03,
     require_obs=["constraints_checked.separation", "constraints_checked.alignment", "constraints_checked.boundary", "constraints_checked.fixed-relative", "layouts_reporting_unsatisfiable"],
@@ -324,11 +324,15 @@ CHECKS["C13"] = dict(
     rule=("cases = the pipeline of the library's own beautify test on random input: 3-12 non-overlapping rectangles (gap 1 or 4), a random connected graph plus extra edges, libavoid polyline "
           "routes turned into topology::Edges with EdgePoints on the routes' (shape, corner) ids, ConstrainedFDLayout + ColaTopologyAddon for 5-120 iterations, optionally with locks "
           "dragging nodes across the drawing and a resize. The monitor runs in the TestConvergence callback at EVERY iteration and once after run(). "
+          "direct: topology::TopologyConstraints used as in the library's simple_bend/nodedragging tests, in a release (NDEBUG) build so that only the monitor judges: 3-10 rectangles, "
+          "real-valued or on a 5-unit grid (abutting or gap 5: corners of different nodes share coordinates), 1-6 passes alternating axes, one instance per pass given 1-3 successive "
+          "goals (instance reuse) of node displacements with weight 1 or 10000; solve() is repeated until it reports no topology event and the state is judged after EVERY solve() return. "
           "non-trivial = the number of points of some edge path changed during the run (a bend was created or removed)"),
-    workloads=[dict(harness="c13_topology", mode="pipeline", quick=6000, thorough=250000, watchdog=120, san_thorough=3000)],
-    min_nontrivial=dict(quick=2000, thorough=40000),
+    workloads=[dict(harness="c13_topology", mode="pipeline", quick=6000, thorough=250000, watchdog=120, san_thorough=3000),
+               dict(harness="c13_topology", mode="direct", flavour="rel", quick=100000, thorough=600000, watchdog=60)],
+    min_nontrivial=dict(quick=8000, thorough=150000),
     max_inconclusive=0.08,
-    require_obs=["iterations_monitored", "edge_states_checked", "bends_checked", "side_signatures_checked", "cases_where_bends_were_created_or_removed"],
+    require_obs=["iterations_monitored", "edge_states_checked", "bends_checked", "side_signatures_checked", "cases_where_bends_were_created_or_removed", "solve_calls_monitored"],
     assumptions=["interior = rectangle shrunk by 1e-6 (paths legitimately run along node borders)",
                  "side signature: parity of a ray from each foreign node centre against the closed curve path + vertical rays at both path ends; compared between consecutive iterations and judged only when neither path end passed the node's x in that step"],
 )
